@@ -28,6 +28,9 @@ MARK = "// ---- added by verif instrument.py ----"
 
 EXCLUDE_FILES = {"verif_facade.rs", "tests.rs", "web.rs", "macros.rs"}  # relative to src/
 EXCLUDE_DIRS = ("tests/", "web/")
+# std items used by non-test code that the facade passes through to plain std WITHOUT modelling them
+UNMODELLED = ("HashSet", "RandomState", "thread::park", "thread::scope", "thread::Builder", "wait_timeout", "wait_timeout_while",
+              "try_lock", "try_read", "try_write", "mpsc", "Barrier", "Once", "OnceLock", "LazyLock", "park_timeout")
 
 LINTS = '\n%s\n[lints.rust]\nunexpected_cfgs = { level = "allow" }\n' % MARK.replace("//", "#")
 
@@ -145,6 +148,10 @@ def instrument_source(rel, text):
                 j += 1
             if re.search(r"\bstd::", text[m.end():j]):
                 sys.stderr.write("instrument.py: WARNING: %s: inline module `%s` uses std:: directly and bypasses the facade\n" % (rel, m.group(2)))
+        body = re.sub(r"(?s)#\[cfg\((?:all\()?test\b.*", "", text)  # ignore the trailing test module
+        for word in UNMODELLED:
+            if re.search(r"\b" + re.escape(word) + r"\b", body):
+                sys.stderr.write("instrument.py: WARNING: %s uses `%s`, which the facade does not model (see README, limitations)\n" % (rel, word))
     if rel in APPEND:
         text = text + ("" if text.endswith("\n") else "\n") + APPEND[rel]
     return text
